@@ -261,8 +261,8 @@ Qed.
 
 Lemma exp_text_ok : forall c v, exp_text c = Some v -> okstr v.
 Proof.
-  intros c v H. unfold exp_text in H. destruct (c_expires c) as [t|]; [|discriminate].
-  destruct (t =? 0)%Z; [discriminate|]. inversion H. apply format_ts_ok.
+  intros c v H. unfold exp_text in H.
+  destruct (effective_expiry c) as [|t|t]; [discriminate| |]; inversion H; apply format_ts_ok.
 Qed.
 
 Lemma exp_text_nosemi : forall c v, exp_text c = Some v -> nochar 59 v.
